@@ -91,9 +91,12 @@ Known(e, prop, d) ==
                       /\ ReqSet(T.oneOf[i]) = DOMAIN T.oneOf[i].properties
                       /\ Valid(T.oneOf[i], v, cur.defs) /\ HasUndeclaredKey(T.oneOf[i], v)
            [] k = "C02-anyof-string-enums-flattened" ->
+                (* an anyOf whose exclusivity typify did not prove: the rendered T is the struct of
+                   flattened optional members *)
                 /\ SHas(T, "anyOf")
-                /\ \A i \in DOMAIN T.anyOf : SHas(T.anyOf[i], "enum") /\ SHas(T.anyOf[i], "type")
-                                               /\ T.anyOf[i].type = "string" }
+                /\ \E i \in DOMAIN items : items[i].mod = "" /\ items[i].kind = "struct" /\ items[i].name = "T"
+                      /\ Len(items[i].fields) = Len(T.anyOf)
+                      /\ \A j \in DOMAIN items[i].fields : items[i].fields[j].flatten }
 
 Diags(e) == LET v == ProbeVal(e) IN
     << IF C02_OK(T, v, cur.defs, e) THEN "ok" ELSE "C02/ValidInstanceRejected",
